@@ -201,7 +201,17 @@ def execute(case):
     else:
         func = lambda y: ((y * y) * (y * y)).sum()
         G = 4 * Xm ** 3
+    if case["seed"] % 3 == 0:
+        # a base point that is a parameter of the caller's own autograd graph (cores require grad): the Riemannian gradient
+        # at it is the same tensor, and the caller's .grad buffers are not the library's to fill
+        for cc in x.cores:
+            cc.requires_grad_(True)
+        ck.label("base_point_tracked")
     g = lib(lambda: T.manifold.riemannian_gradient(x, func))
+    if case["seed"] % 3 == 0:
+        ck.require(all(cc.grad is None for cc in x.cores), "operand_grad_filled", "riemannian_gradient accumulated into the .grad of the base point's cores")
+        for cc in x.cores:
+            cc.requires_grad_(False)
     if not ck.require(isinstance(g, T.TT) and g.is_ttm == ttm and list(g.N) == list(N), "shape", "gradient kind/shape"):
         return ck.verdict()
     ck.require(all(int(a) <= 2 * int(b) for a, b in zip(g.R, x.R)), "ranks", "ranks %s exceed twice %s" % (g.R, x.R))
